@@ -31,6 +31,8 @@ THEOREMS = [
     "VK.fpv_link",
     "VK.C07_droop_psc",
     "VK.C07_DroopPSC_holds_for_untied_profiles",
+    "VK.kernel_threshold_droop",
+    "VK.kernel_transfer_value_used",
 ]
 RULE = ("cases = STV / IRV with the Droop quota, fractional or random transfer, simultaneous or one-by-one, any "
         "tiebreak, on profiles of untied ranked ballots (2-6 candidates); 50% have a planted solid coalition (a random "
